@@ -204,7 +204,9 @@ def history_record(mesh, with_geometry):
                            xPointsAtEnd=[None if p is None else (p.R, p.Z) for p in r.equilibriumRegion.xPointsAtEnd],
                            nx=r.nx, ny=r.ny, radialIndex=r.radialIndex)
     if with_geometry:
-        m2 = dill.loads(dill.dumps(mesh))
+        # "live": the explored mesh itself has geometry() called in every state (the GUI's
+        # write - regrid - write loop), so anything geometry() caches is carried along the history
+        m2 = mesh if with_geometry == "live" else dill.loads(dill.dumps(mesh))
         m2.geometry()
         for r in m2.regions.values():
             rec[r.myID]["fields"] = {k: mla_dump(getattr(r, k)) for k in GEOM_FIELDS if hasattr(r, k)}
@@ -288,9 +290,11 @@ def run_history(c, eq, outdir, meta):
 
     mesh = BoutMesh(eq, dict(c["options"]))
     mesh.calculateRZ()
+    geo = "live" if c.get("geometry_each") else True
+    rec0 = history_record(mesh, geo)
     root = dill.dumps(mesh)
     meta["snapshot_bytes"] = len(root)
-    out = {(): history_record(mesh, True)}
+    out = {(): rec0}
     alphabet = c["alphabet"]
     frontier = [((), root)]
     for depth in range(1, c["depth"] + 1):
@@ -307,7 +311,7 @@ def run_history(c, eq, outdir, meta):
                 except Exception as e:  # noqa: BLE001 - a refusal is an observable outcome
                     out[h] = dict(refused="%s: %s" % (type(e).__name__, str(e)[:300]))
                     continue
-                out[h] = history_record(m, True)
+                out[h] = history_record(m, geo)
                 if depth < c["depth"]:
                     nxt.append((h, dill.dumps(m)))
         frontier = nxt
